@@ -533,7 +533,9 @@ Type help or ? to list commands.
         tree.bind(self.eval_context)
         try:
             value = tree.eval()
-        except EvalError as e:
+        except (EvalError, InternalError) as e:
+            # (InternalError: a node that cannot be evaluated outside a
+            # running program, such as a builtin function call)
             print('Eval error:', e)
             return
         except OverflowError:
